@@ -3,14 +3,16 @@ C08 — obligations over the regenerated table `Generated.C08.rwTable` (rewritte
 every alignment class and option combination: which instance attributes `set_target` reads before it (re)binds
 them, which it changes, which it changes in place).
 
-`rwTable_ok`: on every row the measured reads / writes / in-place writes are exactly the model's `readsOf` /
-`writesOf` / `inPlaceOf`, every attribute of the live object is known to the model, nothing marked
-construction-time-only is touched, and the only attributes both read and written are the target (whose old value
-is only verified against) and the partially overwritten matrix of an in-place class.  With `sync_reads_only`,
-`sync_writes_only` (the model's re-fit reads / writes exactly these sets) and `retarget_state_function` (what
-follows from that alone) this makes "menpo's re-fit is a function of (options, source, target) only" a statement
-about the current code of every class: an attribute that survives from construction or from an earlier target
-and is read by the re-fit breaks this obligation before any behaviour is sampled.
+`rwTable_ok`: on every row the measured reads / writes (right-hand-side scratch apart) / in-place writes are exactly
+the model's `readsOf` / `writesOf` / `inPlaceOf`, every attribute that is read or written is known to the model,
+nothing marked construction-time-only is touched, and the only attributes both read and written are the target (whose
+old value is only verified against) and the partially overwritten matrix of an in-place class.  With
+`sync_reads_only`, `sync_writes_only` (the model's re-fit reads / writes exactly these sets) and
+`retarget_state_function` (what follows from that alone) this ties "menpo's re-fit is a function of (options, source,
+target) only" to ONE traced execution per class and option combination of the current code (instance attributes of the
+alignment object only): an attribute that survives from construction or from an earlier target and is read by the re-fit
+on that path breaks this obligation before any behaviour is sampled; other paths and state outside the instance
+dictionary are left to the fresh-construction oracle.
 -/
 import MenpoModel.Props.C08
 import MenpoModel.Generated.C08RW
@@ -33,6 +35,14 @@ theorem rwTable_options :
 
 /-- the method resolution of the live classes is the one `vEdit` / `hEdit` / `hCopy` / `setTarget` transcribe -/
 theorem dispatch_ok : MenpoModel.Generated.C08.dispatchTable.all Dispatch.ok = true := by decide
+
+/-- on live objects of every class the copy owns its matrix (the in-place re-fits of rotation / translation / uniform
+scale must not reach the original): what `hCopy` transcribes and what `genCopy_eq` cannot see at value level -/
+theorem copyTable_ok : MenpoModel.Generated.C08.copyTable.all CopyRow.ok = true := by decide
+
+theorem copyTable_covers :
+    ([Cls.affine, .similarity, .rotation, .translation, .uniformScale, .tps, .pwa].all fun c =>
+      MenpoModel.Generated.C08.copyTable.any fun r => r.cls == c) = true := by decide
 
 theorem dispatch_covers :
     ([Cls.affine, .similarity, .rotation, .translation, .uniformScale, .tps, .pwa].all fun c =>
